@@ -49,41 +49,53 @@ fn c10_rank_two_f64_rows() {
 
 //@ tier: quick
 //@ timeout: 900
-//@ functions: arrow_ord::rank::{primitive_rank::<i8>, rank_impl} with a validity buffer
-//@ bound: 3 rows of i8 with symbolic validity (validity buffer present), all four SortOptions: valid rows are ranked by the comparator among themselves, null rows share the rank documented for nulls_first / nulls_last; unwind 6
+//@ functions: arrow_ord::rank::rank_impl::<i8, _, _> (the part of primitive_rank after the valid rows are gathered)
+//@ bound: 3 rows of which exactly 2 are valid, at arbitrary distinct row positions (the gathered `valid` vector has concrete length 2; gathering it through NullBuffer::valid_indices is C19's bit-index-iterator obligation), arbitrary i8 values, all four SortOptions: the valid rows are ranked by the comparator between themselves (after the nulls when nulls come first), the null row gets the documented null rank; unwind 6
 //@ stub: alloc::fmt::format -> empty String
 #[kani::proof]
 #[kani::unwind(6)]
 #[kani::stub(alloc::fmt::format, stub_format)]
-fn c10_rank_three_i8_rows_with_nulls() {
-    let v: [i8; 3] = kani::any();
-    let valid: [bool; 3] = kani::any();
+fn c10_rank_impl_two_valid_one_null() {
+    let a: i8 = kani::any();
+    let b: i8 = kani::any();
+    let ia: u32 = kani::any();
+    let ib: u32 = kani::any();
+    kani::assume(ia < ib && ib < 3);
+    let null_row = (3 - ia - ib) as usize;
     let options = SortOptions { descending: kani::any(), nulls_first: kani::any() };
-    let nulls = NullBuffer::from(&valid[..]);
-    let out = primitive_rank(&v[..], Some(&nulls), options);
+    let out = rank_impl(3, vec![(a, ia), (b, ib)], options, i8::compare, i8::is_eq);
     assert!(out.len() == 3);
-    let n_null = (!valid[0]) as u32 + (!valid[1]) as u32 + (!valid[2]) as u32;
+    let base = if options.nulls_first { 1 } else { 0 };
+    // rank = number of rows at or before this one in the requested order
+    let a_before_b = if options.descending { a >= b } else { a <= b };
+    let b_before_a = if options.descending { b >= a } else { b <= a };
+    assert!(out[ia as usize] == base + 1 + b_before_a as u32, "rank of the first valid row");
+    assert!(out[ib as usize] == base + 1 + a_before_b as u32, "rank of the second valid row");
+    assert!(out[null_row] == if options.nulls_first { 1 } else { 3 }, "rank of the null row");
+    kani::cover!(a == b && options.nulls_first);
+    kani::cover!(a < b && options.descending && null_row == 1);
+    std::mem::forget(out);
+}
+
+//@ tier: quick
+//@ timeout: 900
+//@ functions: arrow_ord::rank::{primitive_rank::<i8>, rank_impl} without a validity buffer
+//@ bound: 3 rows of arbitrary i8, no nulls, both directions: rank of row i = number of rows at or before it in the requested order (ties share the highest rank of the group); unwind 6
+//@ stub: alloc::fmt::format -> empty String
+#[kani::proof]
+#[kani::unwind(6)]
+#[kani::stub(alloc::fmt::format, stub_format)]
+fn c10_rank_three_i8_rows_no_nulls() {
+    let v: [i8; 3] = kani::any();
+    let options = SortOptions { descending: kani::any(), nulls_first: kani::any() };
+    let out = primitive_rank(&v[..], None, options);
+    assert!(out.len() == 3);
     let i: usize = kani::any();
     kani::assume(i < 3);
-    if valid[i] {
-        // rows at or before row i among the valid rows, plus all nulls when they come first
-        let mut r = if options.nulls_first { n_null } else { 0 };
-        let mut j = 0;
-        while j < 3 {
-            if valid[j] {
-                let o = if options.descending { v[i].cmp(&v[j]) } else { v[j].cmp(&v[i]) };
-                if o != Ordering::Greater {
-                    r += 1;
-                }
-            }
-            j += 1;
-        }
-        assert!(out[i] == r, "rank of a valid row");
-    } else {
-        assert!(out[i] == if options.nulls_first { n_null } else { 3 }, "rank shared by the null rows");
-    }
-    kani::cover!(n_null == 1 && valid[i] && options.nulls_first);
-    kani::cover!(n_null == 0 && v[0] == v[1] && v[1] != v[2]);
+    let le = |x: i8, y: i8| if options.descending { x >= y } else { x <= y };
+    let r = le(v[0], v[i]) as u32 + le(v[1], v[i]) as u32 + le(v[2], v[i]) as u32;
+    assert!(out[i] == r, "rank follows the comparator");
+    kani::cover!(v[0] == v[1] && v[1] != v[2]);
+    kani::cover!(options.descending && out[i] == 1);
     std::mem::forget(out);
-    std::mem::forget(nulls);
 }
